@@ -60,6 +60,9 @@ void lemma_CompoundParser(void)
   struct compoundData *cd;
   int i, n, ok, weightless = 0;
   double molar = 0.0, atoms = 0.0;
+#ifdef NEL
+  n = NEL;     /* one query per number of elements: constant array sizes keep the queries small */
+#endif
   __CPROVER_assume(n >= 1 && n <= NMAXEL);
   g_n = n; g_scan_ok = ok; s[1] = 0;
   for (i = 0; i < NMAXEL; i++) {
